@@ -9,12 +9,14 @@ import (
 	"bytes"
 	"context"
 	"crypto"
+	"crypto/ecdh"
 	"crypto/ecdsa"
 	"crypto/ed25519"
 	"crypto/elliptic"
 	"crypto/rand"
 	"crypto/rsa"
 	"crypto/sha256"
+	"crypto/x509"
 	"encoding/base64"
 	"encoding/hex"
 	"encoding/json"
@@ -27,6 +29,7 @@ import (
 	"net/url"
 	"os"
 	"path/filepath"
+	"runtime/debug"
 	"sort"
 	"strings"
 	"sync"
@@ -41,6 +44,7 @@ import (
 	"github.com/nuts-foundation/nuts-node/core"
 	nutsCrypto "github.com/nuts-foundation/nuts-node/crypto"
 	"github.com/nuts-foundation/nuts-node/crypto/dpop"
+	"github.com/nuts-foundation/nuts-node/network/dag"
 	"github.com/nuts-foundation/nuts-node/crypto/storage/fs"
 	"github.com/nuts-foundation/nuts-node/crypto/storage/spi"
 	"github.com/nuts-foundation/nuts-node/crypto/storage/vault"
@@ -105,9 +109,18 @@ type result struct {
 type canary struct {
 	kid     string
 	name    string // storage name (file name without _private.pem)
-	priv    *ecdsa.PrivateKey
+	fam     string // key family
+	pub     crypto.PublicKey
+	priv    *ecdsa.PrivateKey // set for EC keys only
 	needles [][]byte
 	forms   []string
+}
+
+func (c *canary) pubEqual(other crypto.PublicKey) bool {
+	if eq, ok := c.pub.(interface{ Equal(crypto.PublicKey) bool }); ok {
+		return eq.Equal(other)
+	}
+	return false
 }
 
 func b64Aligned(enc *base64.Encoding, secret []byte) [][]byte {
@@ -134,9 +147,36 @@ func b64Aligned(enc *base64.Encoding, secret []byte) [][]byte {
 	return out
 }
 
-func makeNeedles(d *big.Int, pemText string) ([][]byte, []string) {
-	raw := make([]byte, 32)
-	d.FillBytes(raw)
+// secretParts returns the secret values of a private key: byte strings and (where the key holds them as such) big integers.
+func secretParts(key any) (fam string, raws [][]byte, ints []*big.Int) {
+	switch k := key.(type) {
+	case *ecdsa.PrivateKey:
+		raw := make([]byte, (k.Curve.Params().BitSize+7)/8)
+		k.D.FillBytes(raw)
+		return "EC-P" + fmt.Sprint(k.Curve.Params().BitSize), [][]byte{raw}, []*big.Int{k.D}
+	case *rsa.PrivateKey:
+		ints = []*big.Int{k.D}
+		ints = append(ints, k.Primes...)
+		if k.Precomputed.Dp != nil {
+			ints = append(ints, k.Precomputed.Dp, k.Precomputed.Dq, k.Precomputed.Qinv)
+		}
+		for _, x := range ints {
+			raws = append(raws, x.Bytes())
+		}
+		return "RSA", raws, ints
+	case ed25519.PrivateKey:
+		return "Ed25519", [][]byte{k.Seed(), []byte(k)}, nil
+	case x25519.PrivateKey:
+		return "X25519", [][]byte{k.Seed()}, nil
+	}
+	return "unknown", nil, nil
+}
+
+// makeNeedles: every rendering of the secret we look for. Byte strings: raw, hex, base64 / base64url (padded, raw, at
+// the three alignments inside a longer text), the decimal byte list fmt prints for %v of a []byte, the Go-syntax byte list
+// of %#v. Integers: decimal (what %v / %d print for a *big.Int), hex without leading zeros (%x). Stored form: PEM body, DER.
+func makeNeedles(key any, pemText string) ([][]byte, []string) {
+	_, raws, ints := secretParts(key)
 	var ns [][]byte
 	var forms []string
 	add := func(form string, b ...[]byte) {
@@ -147,14 +187,27 @@ func makeNeedles(d *big.Int, pemText string) ([][]byte, []string) {
 			}
 		}
 	}
-	add("raw", raw)
-	add("hex", []byte(hex.EncodeToString(raw)), []byte(strings.ToUpper(hex.EncodeToString(raw))))
-	add("base64", []byte(base64.StdEncoding.EncodeToString(raw)), []byte(base64.RawStdEncoding.EncodeToString(raw)))
-	add("base64url", []byte(base64.URLEncoding.EncodeToString(raw)), []byte(base64.RawURLEncoding.EncodeToString(raw)))
-	add("base64-unaligned", b64Aligned(base64.RawStdEncoding, raw)...)
-	add("base64url-unaligned", b64Aligned(base64.RawURLEncoding, raw)...)
-	add("decimal", []byte(d.String()))
-	// PEM body: every line of the stored file (the DER contains d)
+	for _, raw := range raws {
+		if len(raw) < 16 {
+			continue
+		}
+		add("raw", raw)
+		add("hex", []byte(hex.EncodeToString(raw)), []byte(strings.ToUpper(hex.EncodeToString(raw))))
+		add("base64", []byte(base64.StdEncoding.EncodeToString(raw)), []byte(base64.RawStdEncoding.EncodeToString(raw)))
+		add("base64url", []byte(base64.URLEncoding.EncodeToString(raw)), []byte(base64.RawURLEncoding.EncodeToString(raw)))
+		add("base64-unaligned", b64Aligned(base64.RawStdEncoding, raw)...)
+		add("base64url-unaligned", b64Aligned(base64.RawURLEncoding, raw)...)
+		// fmt's renderings of a byte slice: %v "[12 34 ...]", %#v "[]byte{0xc, 0x22, ...}", %x with spaces "0c 22"
+		add("byte-list-decimal", []byte(strings.Trim(fmt.Sprint(raw), "[]")))
+		gs := fmt.Sprintf("%#v", raw)
+		add("byte-list-go-syntax", []byte(gs[strings.Index(gs, "{")+1:len(gs)-1]))
+		add("hex-spaced", []byte(fmt.Sprintf("% x", raw)))
+	}
+	for _, x := range ints {
+		add("decimal", []byte(x.String()))
+		add("hex-int", []byte(x.Text(16)), []byte(strings.ToUpper(x.Text(16))))
+	}
+	// PEM body: every line of the stored file (the DER contains the secret)
 	for _, line := range strings.Split(pemText, "\n") {
 		line = strings.TrimSpace(line)
 		if line == "" || strings.HasPrefix(line, "-----") {
@@ -166,7 +219,7 @@ func makeNeedles(d *big.Int, pemText string) ([][]byte, []string) {
 			add("pem-body", []byte(line))
 		}
 	}
-	// DER of the key in hex / base64 (other containers)
+	// DER of the key in hex / raw (other containers)
 	if blk, _ := pem.Decode([]byte(pemText)); blk != nil {
 		add("der-hex", []byte(hex.EncodeToString(blk.Bytes)))
 		add("der-raw", blk.Bytes)
@@ -248,16 +301,14 @@ func (n *nodeEnv) harvest() []*canary {
 			continue
 		}
 		signer, err := cryptoUtil.PemToPrivateKey(data)
-		if err != nil {
-			continue
-		}
-		ec, ok := signer.(*ecdsa.PrivateKey)
-		if !ok {
+		if err != nil || signer == nil {
 			continue
 		}
 		name := strings.TrimSuffix(e.Name(), "_private.pem")
-		c := &canary{name: name, priv: ec}
-		c.needles, c.forms = makeNeedles(ec.D, string(data))
+		c := &canary{name: name, pub: signer.Public()}
+		c.priv, _ = signer.(*ecdsa.PrivateKey)
+		c.fam, _, _ = secretParts(signer)
+		c.needles, c.forms = makeNeedles(signer, string(data))
 		n.canaries[name] = c
 		n.order = append(n.order, name)
 		fresh = append(fresh, c)
@@ -425,6 +476,8 @@ type run struct {
 	aliasN  int
 	sid     string
 	jwkClass string           // jwk header class of the current step (SignJWS)
+	panics   []string         // operations of the current step that panicked
+	errs     []string         // texts of the errors / panics the operations of the current step returned
 	deleted map[string]string // abstract key -> kid whose key was deleted and not created again
 	inproc  map[string]bool   // abstract key whose current key was created / linked in process (the DID document does not know it)
 }
@@ -523,19 +576,26 @@ func (r *run) scanAll(http [][]byte, artefacts [][]byte, docs [][]byte) {
 	for _, d := range docs {
 		r.scan("didDocument", d)
 	}
+	if len(r.errs) > 0 {
+		r.scan("errorText", []byte(strings.Join(r.errs, "\n")))
+	}
 	dump := r.n.sqlDump()
 	if r.n.plant == "sqlRow" {
 		for _, c := range r.n.canaries {
-			dump = append(dump, []byte("planted:"+hex.EncodeToString(c.priv.D.Bytes()))...)
-			break
+			if c.priv != nil {
+				dump = append(dump, []byte("planted:"+hex.EncodeToString(c.priv.D.Bytes()))...)
+				break
+			}
 		}
 	}
 	r.scan("sqlRow", dump)
 	logs := r.n.newLogs()
 	if r.n.plant == "log" {
 		for _, c := range r.n.canaries {
-			logs = append(logs, []byte("planted d="+base64.RawURLEncoding.EncodeToString(c.priv.D.FillBytes(make([]byte, 32))))...)
-			break
+			if c.priv != nil {
+				logs = append(logs, []byte("planted d="+base64.RawURLEncoding.EncodeToString(c.priv.D.FillBytes(make([]byte, 32))))...)
+				break
+			}
 		}
 	}
 	var audit, plain bytes.Buffer
@@ -576,7 +636,14 @@ func (r *run) verifySig(compact []byte, payload []byte, expectName string, reque
 	r.res.Signatures++
 	r.res.Checks++
 	verify := func(pub crypto.PublicKey) bool {
-		opts := []jws.VerifyOption{jws.WithKey(jwa.ES256, pub)}
+		alg := jwa.ES256
+		var hdr struct {
+			Alg string `json:"alg"`
+		}
+		if json.Unmarshal(protectedHeaderOf(compact), &hdr) == nil && hdr.Alg != "" {
+			alg = jwa.SignatureAlgorithm(hdr.Alg)
+		}
+		opts := []jws.VerifyOption{jws.WithKey(alg, pub)}
 		if payload != nil {
 			opts = append(opts, jws.WithDetachedPayload(payload))
 		}
@@ -588,7 +655,7 @@ func (r *run) verifySig(compact []byte, payload []byte, expectName string, reque
 		r.res.Drift = append(r.res.Drift, "no canary for storage name "+expectName)
 		return
 	}
-	if !verify(exp.priv.Public()) {
+	if !verify(exp.pub) {
 		r.violate(violation{Kind: "wrong-key", Detail: fmt.Sprintf("signature requested for %s does not verify with the public key of its key (%s)", requestedKid, expectName)})
 	}
 	// ... and with no other key: the other keys of this script, plus the most recently created ones (bounded, the node
@@ -602,7 +669,7 @@ func (r *run) verifySig(compact []byte, payload []byte, expectName string, reque
 	}
 	for name := range others {
 		c := r.n.canaries[name]
-		if c != nil && name != expectName && verify(c.priv.Public()) {
+		if c != nil && name != expectName && !c.pubEqual(exp.pub) && verify(c.pub) {
 			r.violate(violation{Kind: "wrong-key", Detail: fmt.Sprintf("signature requested for %s verifies with the key stored as %s", requestedKid, name)})
 		}
 	}
@@ -634,12 +701,40 @@ var nameOfClass = map[string]string{
 
 func (r *run) ctx() context.Context { return audit.TestContext() }
 
+func (r *run) famOf(k string) string {
+	if c := r.n.canaries[r.pubOf[k]]; c != nil {
+		return c.fam
+	}
+	return "?"
+}
+
+// noteErr records the text of a returned error: error texts are an output channel (they end up in API responses and logs).
+func (r *run) noteErr(err error) error {
+	if err != nil {
+		r.errs = append(r.errs, err.Error())
+	}
+	return err
+}
+
+// try runs an in-process operation; a panic is recorded (its text is output as well) and reported as an error.
+func (r *run) try(what string, f func() error) (err error) {
+	defer func() {
+		if rec := recover(); rec != nil {
+			err = fmt.Errorf("PANIC in %s: %v", what, rec)
+			r.errs = append(r.errs, err.Error())
+			r.panics = append(r.panics, what)
+		}
+	}()
+	return r.noteErr(f())
+}
+
 func (r *run) exec(s step) (outcome string) {
 	n := r.n
 	a := s.str("a")
 	k := s.str("k")
 	var httpOut, artefacts, docs [][]byte
 	note := func(ex httpExchange) httpExchange { httpOut = append(httpOut, ex.all); return ex }
+	r.errs, r.panics = nil, nil
 	defer func() { r.scanAll(httpOut, artefacts, docs) }()
 	kid := r.kid[k]
 	switch a {
@@ -647,7 +742,7 @@ func (r *run) exec(s step) (outcome string) {
 		if old := r.deleted[k]; old != "" {
 			// the key of this kid was deleted: a NEW key under the SAME key id
 			ref, pub, err := n.ks.New(r.ctx(), func(crypto.PublicKey) (string, error) { return old, nil })
-			if err != nil {
+			if r.noteErr(err) != nil {
 				return "re-create under the same kid failed: " + err.Error()
 			}
 			fresh := n.harvest()
@@ -655,7 +750,7 @@ func (r *run) exec(s step) (outcome string) {
 				c.kid = old
 			}
 			c := n.canaries[ref.KeyName]
-			if c == nil || !c.priv.PublicKey.Equal(pub) {
+			if c == nil || !c.pubEqual(pub) {
 				return "re-created but key file not found"
 			}
 			delete(r.deleted, k)
@@ -700,14 +795,109 @@ func (r *run) exec(s step) (outcome string) {
 		note(n.do("GET", n.public+"/.well-known/openid-configuration/oauth2/"+subj, nil, ""))
 		note(n.do("GET", n.public+"/oauth2/"+subj+"/oauth-client", nil, ""))
 		return fmt.Sprintf("ok %d keys", len(fresh))
+	case "Import":
+		// a key of another family in the backend (imported PEM: pre-populated fs backend), registered by Link or by Migrate
+		fam, via := s.str("fam"), s.str("via")
+		key := heldKeyOf(fam, k)
+		if key == nil {
+			return "unknown family " + fam
+		}
+		pemText, err := marshalPKCS8PEM(key)
+		if err != nil {
+			return "cannot marshal: " + err.Error()
+		}
+		r.aliasN++
+		name := fmt.Sprintf("verif-import-%s-%s-%d", r.sid, k, r.aliasN)
+		newKid := fmt.Sprintf("did:web:import.example.com:iam:%s#%s-%d", r.sid, k, r.aliasN)
+		if via == "migrate" {
+			name = newKid // Migrate registers a key under its storage name
+		}
+		file := filepath.Join(n.keyDir(), name+"_private.pem")
+		if err := os.WriteFile(file, []byte(pemText), 0o600); err != nil {
+			return "cannot write key file: " + err.Error()
+		}
+		for _, c := range n.harvest() {
+			c.kid = newKid
+		}
+		if n.canaries[name] == nil {
+			// the backend cannot parse this family (e.g. X25519): it is a canary all the same
+			n.knownFiles[name+"_private.pem"] = true
+			c := &canary{name: name, kid: newKid, fam: fam}
+			c.needles, c.forms = makeNeedles(key, pemText)
+			n.canaries[name] = c
+			n.order = append(n.order, name)
+		}
+		if via == "migrate" {
+			cr, ok := n.ks.(*nutsCrypto.Crypto)
+			if !ok {
+				return "key store is not *crypto.Crypto"
+			}
+			err = r.try("Migrate", cr.Migrate)
+		} else {
+			err = r.try("Link", func() error { return n.ks.Link(r.ctx(), newKid, name, "1") })
+		}
+		delete(r.deleted, k)
+		r.kid[k], r.pubOf[k], r.inproc[k] = newKid, name, true
+		r.webDID[k], r.nutsDID[k], r.subject[k] = "", "", ""
+		return fmt.Sprintf("imported %s via %s err=%v", n.canaries[name].fam, via, err)
+	case "Exists":
+		for _, id := range []string{kid, r.deleted[k], "did:web:unknown.example.com#nope"} {
+			if id == "" {
+				continue
+			}
+			_ = r.try("Exists", func() error { _, err := n.ks.Exists(r.ctx(), id); return err })
+		}
+		return "exists checked"
+	case "JWE":
+		// encrypt for the public half of the key, decrypt by key id (in process, every family)
+		out := ""
+		var pub crypto.PublicKey
+		_ = r.try("Resolve", func() error { var err error; pub, err = n.ks.Resolve(r.ctx(), kid); return err })
+		if pub == nil {
+			if c := n.canaries[r.pubOf[k]]; c != nil {
+				pub = c.pub
+			}
+		}
+		var msg string
+		err := r.try("EncryptJWE", func() error {
+			var err error
+			msg, err = n.ks.EncryptJWE(r.ctx(), []byte("jwe-plaintext-"+k), map[string]interface{}{"kid": kid}, pub)
+			return err
+		})
+		out += fmt.Sprintf("encrypt err=%v; ", err != nil)
+		if err == nil {
+			artefacts = append(artefacts, []byte(msg))
+		} else {
+			msg = "eyJhbGciOiJFQ0RILUVTK0EyNTZLVyIsImVuYyI6IkEyNTZHQ00iLCJraWQiOiI" + base64.RawURLEncoding.EncodeToString([]byte(kid)) + "In0.AAAA.AAAA.AAAA.AAAA"
+		}
+		var body []byte
+		err = r.try("DecryptJWE", func() error { var err error; body, _, err = n.ks.DecryptJWE(r.ctx(), msg); return err })
+		out += fmt.Sprintf("decrypt err=%v", err != nil)
+		httpOut = append(httpOut, body)
+		dx := note(n.do("POST", n.internal+"/internal/crypto/v1/decrypt_jwe", map[string]any{"message": msg}, ""))
+		out += fmt.Sprintf(" http=%d", dx.status)
+		return out
 	case "SignJWT":
+		out := ""
+		var tok string
+		if err := r.try("SignJWT", func() error {
+			var err error
+			tok, err = n.ks.SignJWT(r.ctx(), map[string]interface{}{"iss": "verif", "sub": k}, map[string]interface{}{"typ": "JWT"}, kid)
+			return err
+		}); err == nil {
+			artefacts = append(artefacts, []byte(tok))
+			r.verifySig([]byte(tok), nil, r.pubOf[k], kid)
+			out = "inproc:signed "
+		} else {
+			out = "inproc:failed "
+		}
 		ex := note(n.do("POST", n.internal+"/internal/crypto/v1/sign_jwt", map[string]any{"kid": kid, "claims": map[string]any{"iss": "verif", "sub": k, "iat": time.Now().Unix()}}, ""))
 		if ex.status != 200 {
-			return fmt.Sprintf("http %d", ex.status)
+			return out + fmt.Sprintf("http %d", ex.status)
 		}
 		artefacts = append(artefacts, ex.body)
 		r.verifySig(bytes.TrimSpace(ex.body), nil, r.pubOf[k], kid)
-		return "signed"
+		return "signed " + out
 	case "SignJWS":
 		j := s.str("jwk")
 		cls, fam := "none", "-"
@@ -759,7 +949,8 @@ func (r *run) exec(s step) (outcome string) {
 			if hdrKey != nil {
 				h2["jwk"] = hdrKey
 			}
-			sig, err := n.ks.SignJWS(r.ctx(), payload, h2, kid, detached)
+			var sig string
+			err := r.try("SignJWS", func() error { var err error; sig, err = n.ks.SignJWS(r.ctx(), payload, h2, kid, detached); return err })
 			if err != nil {
 				out += "inproc:refused "
 				continue
@@ -817,12 +1008,16 @@ func (r *run) exec(s step) (outcome string) {
 		r.verifySig([]byte(resp.Dpop), nil, r.pubOf[k], kid)
 		// in-process as well
 		req, _ := http.NewRequest("GET", "https://resource.example.com/x", nil)
-		if tok, err := n.ks.SignDPoP(r.ctx(), *dpop.New(*req), kid); err == nil {
+		var tok string
+		if err := r.try("SignDPoP", func() error { var err error; tok, err = n.ks.SignDPoP(r.ctx(), *dpop.New(*req), kid); return err }); err == nil {
 			artefacts = append(artefacts, []byte(tok))
 			r.verifySig([]byte(tok), nil, r.pubOf[k], kid)
 		}
 		return "signed"
 	case "SignLD":
+		if r.subject[k] == "" {
+			return "not applicable (key without DID document)"
+		}
 		did := r.webDID[k]
 		body := map[string]any{"@context": "https://nuts.nl/credentials/v1", "type": "NutsOrganizationCredential", "issuer": did, "format": "ldp_vc", "withStatusList2021Revocation": false,
 			"credentialSubject": map[string]any{"id": did, "organization": map[string]any{"name": "Canary Care", "city": "Testville"}}}
@@ -865,6 +1060,9 @@ func (r *run) exec(s step) (outcome string) {
 	case "SignTx":
 		// a service on the subject: DID document update; the did:nuts document travels as a signed DAG transaction
 		subj := r.subject[k]
+		if subj == "" {
+			return "not applicable (key without DID document)"
+		}
 		ex := note(n.do("POST", n.internal+"/internal/vdr/v2/subject/"+subj+"/service", map[string]any{"type": fmt.Sprintf("verif-%d", r.stepNo), "serviceEndpoint": "https://svc.example.com/" + k}, ""))
 		docs = append(docs, ex.body)
 		// the transactions (JWS with embedded jwk) are an output channel
@@ -882,6 +1080,32 @@ func (r *run) exec(s step) (outcome string) {
 		}
 		return fmt.Sprintf("http %d, %d transactions", ex.status, len(txs))
 	case "Decrypt":
+		// in process, every family: a real ECIES cipher text where possible, garbage, and the caller that logs failures
+		// (network/dag EncryptedPAL.Decrypt, used for the PAL header of incoming private transactions)
+		inproc := ""
+		cts := [][]byte{[]byte("not a cipher text"), {}}
+		if c := n.canaries[r.pubOf[k]]; c != nil {
+			if ecPub, ok := c.pub.(*ecdsa.PublicKey); ok {
+				_ = r.try("EciesEncrypt", func() error {
+					ct, err := nutsCrypto.EciesEncrypt(ecPub, []byte("did:nuts:GvkzxsezHvEc8nGhgz6Xo3jbqkHwswLmWw3CYtCm7hAW"))
+					if err == nil {
+						cts = append(cts, ct)
+					}
+					return err
+				})
+			}
+		}
+		for _, ct := range cts {
+			ct := ct
+			var plain []byte
+			err := r.try("Decrypt", func() error { var err error; plain, err = n.ks.Decrypt(r.ctx(), kid, ct); return err })
+			httpOut = append(httpOut, plain)
+			inproc += fmt.Sprintf("%v,", err == nil)
+			_ = r.try("EncryptedPAL.Decrypt", func() error { _, err := dag.EncryptedPAL{ct}.Decrypt(r.ctx(), []string{kid}, n.ks); return err })
+		}
+		if r.subject[k] == "" {
+			return "in-process only (no DID): ok=" + inproc
+		}
 		did := r.nutsDID[k]
 		if did == "" {
 			did = r.webDID[k]
@@ -904,14 +1128,19 @@ func (r *run) exec(s step) (outcome string) {
 		}
 		return "decrypted"
 	case "Resolve":
-		did := r.webDID[k]
-		docs = append(docs, note(n.do("GET", n.internal+"/internal/vdr/v2/did/"+url.PathEscape(did), nil, "")).body)
-		docs = append(docs, note(n.do("GET", n.public+"/iam/"+r.subject[k]+"/did.json", nil, "")).body)
-		docs = append(docs, note(n.do("GET", n.internal+"/internal/vdr/v2/subject/"+r.subject[k], nil, "")).body)
-		pub, err := n.ks.Resolve(r.ctx(), kid)
+		if did := r.webDID[k]; did != "" {
+			docs = append(docs, note(n.do("GET", n.internal+"/internal/vdr/v2/did/"+url.PathEscape(did), nil, "")).body)
+			docs = append(docs, note(n.do("GET", n.public+"/iam/"+r.subject[k]+"/did.json", nil, "")).body)
+			docs = append(docs, note(n.do("GET", n.internal+"/internal/vdr/v2/subject/"+r.subject[k], nil, "")).body)
+		}
+		var pub crypto.PublicKey
+		err := r.try("Resolve", func() error { var err error; pub, err = n.ks.Resolve(r.ctx(), kid); return err })
+		if pub != nil {
+			httpOut = append(httpOut, []byte(fmt.Sprintf("%v %+v", pub, pub))) // the returned value, as a caller would print it
+		}
 		r.res.Checks++
 		if err == nil {
-			if c := n.canaries[r.pubOf[k]]; c != nil && !c.priv.PublicKey.Equal(pub) {
+			if c := n.canaries[r.pubOf[k]]; c != nil && !c.pubEqual(pub) {
 				r.violate(violation{Kind: "wrong-key", Detail: "Resolve(" + kid + ") returns another public key than the one of its key pair"})
 			}
 			if _, isPriv := pub.(crypto.Signer); isPriv {
@@ -931,7 +1160,7 @@ func (r *run) exec(s step) (outcome string) {
 		httpOut = append(httpOut, []byte(strings.Join(names, "\n")))
 		return fmt.Sprintf("%d kids listed", len(names))
 	case "Delete":
-		err := n.ks.Delete(r.ctx(), kid)
+		err := r.try("Delete", func() error { return n.ks.Delete(r.ctx(), kid) })
 		if err != nil {
 			return fmt.Sprintf("deleted err=%v", err)
 		}
@@ -961,7 +1190,7 @@ func (r *run) exec(s step) (outcome string) {
 			r.aliasN++
 			target = fmt.Sprintf("verif-alias-%s-%d", r.sid, r.aliasN)
 		}
-		err := n.ks.Link(r.ctx(), target, r.pubOf[to], "1")
+		err := r.try("Link", func() error { return n.ks.Link(r.ctx(), target, r.pubOf[to], "1") })
 		if err == nil {
 			delete(r.deleted, k)
 			r.kid[k], r.pubOf[k], r.inproc[k] = target, r.pubOf[to], true
@@ -972,7 +1201,7 @@ func (r *run) exec(s step) (outcome string) {
 		nc := s.str("nc")
 		r.aliasN++
 		alias := fmt.Sprintf("verif-name-%s-%s-%d", r.sid, nc, r.aliasN)
-		err := n.ks.Link(r.ctx(), alias, nameOfClass[nc], "1")
+		err := r.try("Link", func() error { return n.ks.Link(r.ctx(), alias, nameOfClass[nc], "1") })
 		if err == nil {
 			r.aliasNC[nc] = alias
 		}
@@ -983,9 +1212,9 @@ func (r *run) exec(s step) (outcome string) {
 		if b == "fs" {
 			// through the whole node: every operation that dereferences the key reference
 			alias := r.aliasNC[nc]
-			_, e1 := n.ks.Resolve(r.ctx(), alias)
-			_, e2 := n.ks.SignJWT(r.ctx(), map[string]interface{}{"iss": "x"}, nil, alias)
-			_, e3 := n.ks.Decrypt(r.ctx(), alias, []byte("x"))
+			e1 := r.try("Resolve", func() error { _, err := n.ks.Resolve(r.ctx(), alias); return err })
+			e2 := r.try("SignJWT", func() error { _, err := n.ks.SignJWT(r.ctx(), map[string]interface{}{"iss": "x"}, nil, alias); return err })
+			e3 := r.try("Decrypt", func() error { _, err := n.ks.Decrypt(r.ctx(), alias, []byte("x")); return err })
 			ex := note(n.do("POST", n.internal+"/internal/crypto/v1/sign_jwt", map[string]any{"kid": alias, "claims": map[string]any{"iss": "x"}}, ""))
 			out = fmt.Sprintf("node: resolve=%v sign=%v decrypt=%v http=%d; ", e1 != nil, e2 != nil, e3 != nil, ex.status)
 		}
@@ -1000,20 +1229,20 @@ func (r *run) deletedCannotSign(k string, httpOut, artefacts *[][]byte) string {
 	n, kid := r.n, r.deleted[k]
 	r.res.Checks++
 	var still []string
-	if tok, err := n.ks.SignJWT(r.ctx(), map[string]interface{}{"iss": "x"}, nil, kid); err == nil {
+	if tok, err := n.ks.SignJWT(r.ctx(), map[string]interface{}{"iss": "x"}, nil, kid); r.noteErr(err) == nil {
 		still = append(still, "SignJWT")
 		*artefacts = append(*artefacts, []byte(tok))
 	}
-	if tok, err := n.ks.SignJWS(r.ctx(), []byte("p"), map[string]interface{}{}, kid, false); err == nil {
+	if tok, err := n.ks.SignJWS(r.ctx(), []byte("p"), map[string]interface{}{}, kid, false); r.noteErr(err) == nil {
 		still = append(still, "SignJWS")
 		*artefacts = append(*artefacts, []byte(tok))
 	}
 	req, _ := http.NewRequest("GET", "https://resource.example.com/x", nil)
-	if tok, err := n.ks.SignDPoP(r.ctx(), *dpop.New(*req), kid); err == nil {
+	if tok, err := n.ks.SignDPoP(r.ctx(), *dpop.New(*req), kid); r.noteErr(err) == nil {
 		still = append(still, "SignDPoP")
 		*artefacts = append(*artefacts, []byte(tok))
 	}
-	if _, err := n.ks.Decrypt(r.ctx(), kid, []byte("not a ciphertext")); err == nil {
+	if _, err := n.ks.Decrypt(r.ctx(), kid, []byte("not a ciphertext")); r.noteErr(err) == nil {
 		still = append(still, "Decrypt")
 	}
 	ex := n.do("POST", n.internal+"/internal/crypto/v1/sign_jwt", map[string]any{"kid": kid, "claims": map[string]any{"iss": "x"}}, "")
@@ -1022,7 +1251,7 @@ func (r *run) deletedCannotSign(k string, httpOut, artefacts *[][]byte) string {
 		still = append(still, "sign_jwt API")
 		*artefacts = append(*artefacts, ex.body)
 	}
-	if _, err := n.ks.Resolve(r.ctx(), kid); err == nil {
+	if _, err := n.ks.Resolve(r.ctx(), kid); r.noteErr(err) == nil {
 		still = append(still, "Resolve")
 	}
 	if len(still) > 0 {
@@ -1030,6 +1259,56 @@ func (r *run) deletedCannotSign(k string, httpOut, artefacts *[][]byte) string {
 		return "deleted key still usable: " + strings.Join(still, ",")
 	}
 	return "deleted key refused"
+}
+
+// keys of the families a backend can hold (plus X25519, which util.PemToPrivateKey does not support), per abstract key:
+// generated once per process (RSA key generation is slow), distinct per abstract key so that signatures tell them apart
+var (
+	heldMu   sync.Mutex
+	heldKeys = map[string]any{}
+)
+
+func heldKeyOf(fam, slot string) any {
+	heldMu.Lock()
+	defer heldMu.Unlock()
+	id := fam + "/" + slot
+	if k, ok := heldKeys[id]; ok {
+		return k
+	}
+	var key any
+	switch fam {
+	case "EC-P256":
+		key, _ = ecdsa.GenerateKey(elliptic.P256(), rand.Reader)
+	case "EC-P384":
+		key, _ = ecdsa.GenerateKey(elliptic.P384(), rand.Reader)
+	case "EC-P521":
+		key, _ = ecdsa.GenerateKey(elliptic.P521(), rand.Reader)
+	case "RSA":
+		key, _ = rsa.GenerateKey(rand.Reader, 2048)
+	case "Ed25519":
+		_, key, _ = ed25519.GenerateKey(rand.Reader)
+	case "X25519":
+		_, key, _ = x25519.GenerateKey(rand.Reader)
+	default:
+		return nil
+	}
+	heldKeys[id] = key
+	return key
+}
+
+func marshalPKCS8PEM(key any) (string, error) {
+	if xk, ok := key.(x25519.PrivateKey); ok {
+		ek, err := ecdh.X25519().NewPrivateKey(xk.Seed())
+		if err != nil {
+			return "", err
+		}
+		key = ek
+	}
+	der, err := x509.MarshalPKCS8PrivateKey(key)
+	if err != nil {
+		return "", err
+	}
+	return string(pem.EncodeToMemory(&pem.Block{Type: "PRIVATE KEY", Bytes: der})), nil
 }
 
 // caller supplied keys of every family jwx knows (generated once per process)
@@ -1156,7 +1435,7 @@ func (r *run) ownerOfEmbeddedJWK(compact string) string {
 		return ""
 	}
 	for name, c := range r.n.canaries {
-		if c.priv.PublicKey.Equal(&pub) {
+		if c.pubEqual(&pub) {
 			return name
 		}
 	}
@@ -1365,22 +1644,26 @@ func (r *run) useNameStandalone(backend, nc string) string {
 
 // ------------------------------------------------------------------------------------------------- main
 
-func (n *nodeEnv) runScript(sc script) result {
-	res := result{ID: sc.ID, Violations: []violation{}, Ops: []opResult{}, Drift: []string{}, Trace: []map[string]any{}}
+func (n *nodeEnv) runScript(sc script) (res result) {
+	res = result{ID: sc.ID, Violations: []violation{}, Ops: []opResult{}, Drift: []string{}, Trace: []map[string]any{}}
 	h := sha256.Sum256([]byte(sc.ID))
 	r := &run{n: n, res: &res, subject: map[string]string{}, webDID: map[string]string{}, nutsDID: map[string]string{}, kid: map[string]string{}, pubOf: map[string]string{},
 		aliasNC: map[string]string{}, deleted: map[string]string{}, inproc: map[string]bool{}, sid: hex.EncodeToString(h[:4])}
 	defer func() {
 		if rec := recover(); rec != nil {
-			res.Error = fmt.Sprintf("harness panic: %v", rec)
+			res.Error = fmt.Sprintf("harness panic: %v\n%s", rec, debug.Stack())
 		}
 	}()
 	for i, s := range sc.Steps {
 		r.stepNo, r.op, r.jwkClass = i, s.str("a"), s.str("jwk")
 		out := r.exec(s)
+		for _, pn := range r.panics {
+			res.Drift = append(res.Drift, fmt.Sprintf("PANIC in %s during %s (key family %s)", pn, s.str("a"), r.famOf(s.str("k"))))
+			out += " PANIC:" + pn
+		}
 		res.Ops = append(res.Ops, opResult{A: s.str("a"), Outcome: out})
 		ev := map[string]any{"ev": "op", "a": s.str("a"), "leak": len(res.Violations) > 0}
-		for _, key := range []string{"k", "jwk", "to", "nc", "b"} {
+		for _, key := range []string{"k", "jwk", "to", "nc", "b", "fam", "via"} {
 			if v := s.str(key); v != "" {
 				ev[key] = v
 			}
